@@ -28,6 +28,11 @@ def run(ctx, rep):
                    "calc_vecB build their result on every call, in sorted key order; no cached array that another method could update)", floor=2)
     from .c08 import check_model_accessors
     check_model_accessors(ctx, rep, "L7")
+    rep.rule("L8", "the A and b the estimator inverts hold the circuit's coefficients: rows, offsets and implied constants of the four "
+                   "tomography classes (rules M4 / M5 of C08)", floor=6)
+    from ..report import Relay
+    from .c08 import _m45
+    _m45(ctx, Relay(rep, {"M4": "L8", "M5": "L8"}))
     f = ix.func(E + "linear_estimator.LinearEstimator.calc_estimate_sequence")
     loops = [n for n in own_nodes(f.node) if isinstance(n, ast.For) and unparse(n.iter) == "empi_dists_sequence"]
     if len(loops) != 1:
